@@ -313,7 +313,7 @@ def rsub(r, kind=None, payload=None, reply_flag=False):
     k = kind or r.choice(KINDS)
     rid, wid = rhex(r, 4), rhex(r, 4)
     if k == "AN":
-        b, ms = rset(r, I64MIN, I64MAX)
+        b, ms = rset(r, I64MIN, I64MAX - 1)   # i64::MAX is never a set member (not round-trippable)
         return ["AN", str(r.randint(0, 1)), rid, wid, str(b), ms, str(ri32(r))]
     if k == "DA":
         fl = "".join(str(r.randint(0, 1)) for _ in range(4))
@@ -324,7 +324,7 @@ def rsub(r, kind=None, payload=None, reply_flag=False):
         n = payload if payload is not None else r.choice([0, 1, 4, 17, 1344])
         return ["DF", fl, rid, wid, str(rsn(r)), str(ru32(r)), str(ru16(r)), str(ru16(r)), str(ru32(r)), rqos(r), rbytes_bx(r, n)]
     if k == "GP":
-        b, ms = rset(r, I64MIN, I64MAX)
+        b, ms = rset(r, I64MIN, I64MAX - 1)   # i64::MAX is never a set member (not round-trippable)
         return ["GP", rid, wid, str(rsn(r)), str(b), ms]
     if k == "HB":
         return ["HB", "%d%d" % (r.randint(0, 1), r.randint(0, 1)), rid, wid, str(rsn(r)), str(rsn(r)), str(ri32(r))]
